@@ -135,6 +135,9 @@ pub struct NodeCfg {
     pub skip_sync_when_allowed: bool,
     /// applied state is written synchronously to a store of its own (not part of the raft WAL)
     pub split_app_store: bool,
+    /// synchronous application that uses `RawNode::advance` + `advance_apply` (the calls of the
+    /// crate's examples) instead of `advance_append` + `advance_apply_to`
+    pub simple_advance: bool,
     /// this node exists from the start (false: created later by Restart — a spare)
     pub boot: bool,
     /// the node's store starts without a configuration (a freshly created, uninitialised peer:
@@ -171,6 +174,7 @@ impl NodeCfg {
             loose_async: false,
             skip_sync_when_allowed: false,
             split_app_store: false,
+            simple_advance: false,
             boot: true,
             empty_conf: false,
             pre_vote_off_on_restart: false,
@@ -317,6 +321,7 @@ pub enum Stat {
     ApiProbes,
     GroupCommitChecked,
     TalliesChecked,
+    SimpleAdvances,
     _N,
 }
 pub const NSTAT: usize = Stat::_N as usize;
@@ -363,6 +368,7 @@ pub const STAT_NAMES: [&str; NSTAT] = [
     "api_probes_on_clones",
     "group_commits_checked_against_two_groups",
     "election_wins_checked_against_released_grants",
+    "ready_rounds_through_advance_and_advance_apply",
 ];
 
 pub struct Ctx {
